@@ -7,7 +7,7 @@ body does not instantiate for an element type, writes them to c02_have.hpp and t
 `instantiation`. Structured bisection: family -> kind -> shape -> sub-operation -> element type; a cached seed (the units found
 missing the last time, on any tree) makes the common case a single parallel batch: one probe per family with the seed excluded
 (verifies everything else compiles) plus one probe per seed unit (verifies it still fails)."""
-import json, os
+import glob, hashlib, json, os, shutil
 import vlib
 from props import simple
 from vlib import Stage
@@ -37,6 +37,21 @@ def unit_pred(u):
     return '(kind==%d&&s1==%d&&s2==%d&&ty==%d)' % tuple(u)
 
 
+_harness_hash = None
+
+
+def harness_hash():
+    """The probes compile the harness itself, so their cached verdicts must depend on its text (and on the engine headers it includes)."""
+    global _harness_hash
+    if _harness_hash is None:
+        h = hashlib.sha256()
+        for f in ['props/C02_linalg.cpp', 'engine/pbt.hpp', 'engine/fp.hpp', 'engine/ref/reflinalg.hpp']:
+            with open(os.path.join(vlib.ROOT, f), 'rb') as fh:
+                h.update(fh.read())
+        _harness_hash = h.hexdigest()[:16]
+    return _harness_hash
+
+
 def node_source(node, excl):
     """Probe translation unit for a node (dict of fixed fields): c02_have is true exactly on the node's units minus `excl`."""
     conds = []
@@ -51,7 +66,7 @@ def node_source(node, excl):
         if all(node.get(f, v) == v for f, v in zip(('kind', 's1', 's2', 'ty'), u)) and KIND[u[0]][0] == node['fam']:
             conds.append('!' + unit_pred(u))
     types = [t for t in TYPES if ('ty' not in node or t[2] == node['ty']) and (node['fam'] != 7 or t[3])]
-    src = ['#define C02_PROBE 1', 'constexpr bool c02_have(int kind, int s1, int s2, int ty) { return %s; }' % '&&'.join(conds), '#include "props/C02_linalg.cpp"']
+    src = ['// harness ' + harness_hash(), '#define C02_PROBE 1', 'constexpr bool c02_have(int kind, int s1, int s2, int ty) { return %s; }' % '&&'.join(conds), '#include "props/C02_linalg.cpp"']
     src += ['template struct Fam<%s, %s, glm::%s>;' % (FAMS[node['fam']], t[0], t[1]) for t in types]
     return '\n'.join(src)
 
@@ -131,6 +146,9 @@ def c02_prebuild(stage, pid, tier):
              '#define C02_MISSING(X) ' + ' '.join('X(%s, %d, %d, %d, %s)' % (KINDS[u[0]], u[1], u[2], u[3], cstr(errs.get(u, ''))) for u in sorted(missing)),
              '#define C02_UNITS_PROBED %d' % units_total()]
     d = os.path.join(vlib.BUILD, pid, 'gen-' + vlib.repo_hash())
+    for old in glob.glob(os.path.join(vlib.BUILD, pid, 'gen-*')):  # generated headers of other trees (mutation runs) are not kept
+        if old != d:
+            shutil.rmtree(old, ignore_errors=True)
     vlib.write_if_changed(os.path.join(d, 'c02_have.hpp'), '\n'.join(lines) + '\n')
     stage.flags += ['-I' + d]
     stage.deps.append(os.path.join(d, 'c02_have.hpp'))
